@@ -723,19 +723,25 @@ Proof.
 Qed.
 
 Definition spread_ok (w : world) : Prop :=
-  forall p c, List.In p (w_pods w) -> p_new p = true -> List.In c (p_spread p) -> sp_in_scope w p c = true ->
-    forall d, List.In d (dom_of w p (s_key c)) -> sp_ok w p c d = true \/ sp_later_ok w p c d = true.
+  forall p c, List.In p (w_pods w) -> p_new p = true -> List.In c (p_spread p) ->
+    forall d, List.In d (dom_of w p (s_key c)) ->
+      exists l, List.In l (w_pods w) /\ p_new l = true /\ p_ns l = p_ns p /\ carries l c = true /\
+                in_domain w p l (s_key c) d = true /\
+                (view_ambiguous w l c = true \/ sp_ok_last w l c d = true).
 
 Lemma spread_ok_iff w : spread_ok_b w = true <-> spread_ok w.
 Proof.
   unfold spread_ok_b, spread_ok. rewrite forallb_forall. split.
-  - intros H p c Ip N Ic S. specialize (H p Ip). rewrite N in H. simpl in H. rewrite forallb_forall in H.
-    specialize (H c Ic). unfold spread_c_ok in H. rewrite S in H. simpl in H.
-    intros d Id. rewrite forallb_forall in H. apply orb_true_iff. apply H. exact Id.
+  - intros H p c Ip N Ic d Id. specialize (H p Ip). rewrite N in H. simpl in H. rewrite forallb_forall in H.
+    specialize (H c Ic). unfold spread_c_ok in H. rewrite forallb_forall in H. specialize (H d Id).
+    apply existsb_exists in H. destruct H as [l [Il W]]. unfold sp_witness in W.
+    rewrite !andb_true_iff, orb_true_iff in W. destruct W as [[[[A B] C] D] E].
+    exists l. apply String.eqb_eq in B. tauto.
   - intros H p Ip. destruct (p_new p) eqn:N; [|reflexivity]. simpl. apply forallb_forall. intros c Ic.
-    unfold spread_c_ok. destruct (sp_in_scope w p c) eqn:S; [|reflexivity]. simpl.
-    pose proof (H p c Ip N Ic S) as A.
-    apply forallb_forall. intros d Id. apply orb_true_iff. apply A. exact Id.
+    unfold spread_c_ok. apply forallb_forall. intros d Id.
+    destruct (H p c Ip N Ic d Id) as [l (Il & A & B & C & D & E)].
+    apply existsb_exists. exists l. split; [exact Il|]. unfold sp_witness.
+    rewrite A, C, D, B, String.eqb_refl. simpl. apply orb_true_iff. exact E.
 Qed.
 
 Definition interpod_ok (w : world) : Prop := anti_ok w /\ affinity_ok w /\ spread_ok w.
